@@ -5,7 +5,7 @@ cd /verif
 for d in seeded/*/; do
   id=$(basename "$d")
   if python3 -c "import json,sys;sys.exit(0 if json.load(open('$d/meta.json')).get('obsolete') else 1)" 2>/dev/null; then echo "$id -> obsolete (no longer breaks the property on the fixed tree; see meta.json)"; continue; fi
-  if python3 -c "import json,sys;sys.exit(0 if json.load(open('$d/meta.json')).get('undetectable') else 1)" 2>/dev/null; then echo "$id -> outside the simulated code (recorded miss; see meta.json)"; continue; fi
+  if python3 -c "import json,sys;sys.exit(0 if json.load(open('$d/meta.json')).get('undetectable') else 1)" 2>/dev/null; then echo "$id -> not counted (see meta.json: $(python3 -c "import json;print(json.load(open('$d/meta.json')).get('why_not_counted','outside the simulated code'))"))"; continue; fi
   prop=$(python3 -c "import json;print(json.load(open('$d/meta.json'))['breaks_property'])" 2>/dev/null || echo "${id:0:3}")
   out=$(tools/try_mutant.sh "$d/patch.diff" "$prop" 2>&1)
   rc=$(echo "$out" | grep -o "exit=[0-9]*" | head -1)
